@@ -7,6 +7,7 @@ import (
 	"math/rand"
 	"os"
 	"sort"
+	"strconv"
 	"strings"
 	"syscall"
 	"time"
@@ -149,7 +150,59 @@ type clientState struct {
 }
 
 // Execute runs the plan in a scratch directory and returns the result.
+// decodedMeta returns the plan with the byte escapes of its metadata values
+// ("\\xe9": plans are JSON and cannot carry bytes that are not UTF-8)
+// replaced by the bytes.  The caller's plan is left as it is.
+func decodedMeta(p *Plan) *Plan {
+	need := false
+	for _, c := range p.Clients {
+		for _, op := range c {
+			for _, v := range op.Meta {
+				if strings.Contains(v, `\x`) {
+					need = true
+				}
+			}
+		}
+	}
+	if !need {
+		return p
+	}
+	q := *p
+	q.Clients = make([][]Op, len(p.Clients))
+	for ci, c := range p.Clients {
+		q.Clients[ci] = append([]Op(nil), c...)
+		for oi := range q.Clients[ci] {
+			op := &q.Clients[ci][oi]
+			if op.Meta == nil {
+				continue
+			}
+			m := make(map[string]string, len(op.Meta))
+			for k, v := range op.Meta {
+				m[k] = unescapeBytes(v)
+			}
+			op.Meta = m
+		}
+	}
+	return &q
+}
+
+func unescapeBytes(v string) string {
+	var b []byte
+	for i := 0; i < len(v); i++ {
+		if v[i] == '\\' && i+3 < len(v) && v[i+1] == 'x' {
+			if n, err := strconv.ParseUint(v[i+2:i+4], 16, 8); err == nil {
+				b = append(b, byte(n))
+				i += 3
+				continue
+			}
+		}
+		b = append(b, v[i])
+	}
+	return string(b)
+}
+
 func Execute(p *Plan, scratch string) (res *Result) {
+	p = decodedMeta(p)
 	res = &Result{Stats: newStats()}
 	dir, err := os.MkdirTemp(scratch, "run")
 	if err != nil {
